@@ -442,6 +442,17 @@ def structured_trees(sp, rng):
         for k1 in kinds:
             for k2 in kinds:
                 out.append((f(operand(k1), operand(k2)), ["struct:" + cn, k1, k2]))
+    # stacks over blocks that CHANGE THE RANK, with negative axes: an axis refers to the rank of the shape it indexes
+    # (output axis -> block outputs, input axis -> block inputs), never to the other one
+    up = lambda: lin.Reshape(sh, [6])              # noqa: E731   [6] -> [2, 3]
+    down = lambda: lin.Reshape([6], sh)            # noqa: E731   [2, 3] -> [6]
+    for ax in (-1, -2, 0, 1):
+        out.append((lin.Vstack([up(), lin.Multiply(sh, marr) * up()], axis=ax), ["struct:vstack-rank-up", "axis%d" % ax]))
+        out.append((lin.Hstack([down(), down() * lin.Multiply(sh, marr)], axis=ax), ["struct:hstack-rank-down", "axis%d" % ax]))
+        for ia in (-1, 0):
+            out.append((lin.Diag([up(), lin.Multiply(sh, marr) * up()], oaxis=ax, iaxis=ia), ["struct:diag-rank-up", "oaxis%d" % ax, "iaxis%d" % ia]))
+    for ia in (-1, -2, 0, 1):
+        out.append((lin.Diag([down(), down()], oaxis=rng.choice([0, -1]), iaxis=ia), ["struct:diag-rank-down", "iaxis%d" % ia]))
     return out
 
 
